@@ -102,7 +102,11 @@ def board_corruptions():
     def acc(e):
         e["occ"] = e["occ"][1:]
 
+    def pair_eq(e):
+        e["eq"] = not e["eq"]
+
     return [
+        ("pair: boards with different records reported equal", "pair", lambda e: e["a"]["fmn"] != e["o"]["fmn"], pair_eq, "C07"),
         ("gen: one destination dropped", "gen", lambda e: e["bt"] and len(e["bt"][0][2]) > 0, drop_to, "C01"),
         ("play: a square added to pinned", "play", lambda e: e["res"] == "ok", add_pin, "C03"),
         ("play: a square added to checkers", "play", lambda e: e["res"] == "ok", drop_chk_or_add, "C03"),
